@@ -1,7 +1,9 @@
 """C19 Peer-to-peer mesh always forms completely and consistently."""
 import hashlib
+import json
 import os
 import re
+import sys
 
 import vlib
 
@@ -21,6 +23,12 @@ THEOREMS = [
     "Mpc.C19_old_order_deadlock",
     "Mpc.C19_old_order_return_incomplete",
     "Mpc.C19_old_order_error",
+    # data phase overlapping the setup phase (Model/MeshData.lean)
+    "Mpc.Mesh.dreach_base",
+    "Mpc.Mesh.dreach_conserved",
+    "Mpc.C19_early_data_conserved",
+    "Mpc.C19_early_data_delivered",
+    "Mpc.C19_hello_reader_drops_early_data",
 ]
 
 HOOK_POINTS = ["join", "lconnect", "waitdone", "info", "hello", "gotinfo", "dial", "accept", "accstore", "accdec",
@@ -233,6 +241,42 @@ def facts(ctx):
                 "return nw.Peers[i].ID < nw.Peers[j].ID" in net], [True] * 5)
 
 
+def replay_exact(ctx):
+    """`bin/check C19 --replay F`: F holds the spec of one failing session (parties, connections, join order, start
+    offsets, delay profile and seed, gates, data plan).  Exactly that session is run again on the real code (up to 12
+    times: what the OS scheduler adds is not recorded) and its trace is validated on the model; a run that fails again
+    decides the check."""
+    if "--replay" not in sys.argv:
+        return False
+    try:
+        rp = sys.argv[sys.argv.index("--replay") + 1]
+        rp = rp if os.path.isabs(rp) else os.path.join(vlib.VERIF, rp)
+        f = json.load(open(rp)).get("failure") or {}
+    except Exception:
+        return False
+    if not f.get("spec"):
+        return False
+    cp = os.path.join(vlib.VERIF, ".work", "C19-replay-%d.json" % os.getpid())   # finish() rewrites the replay file
+    json.dump({"failure": {"spec": f["spec"], "sig": f.get("sig")}}, open(cp, "w"))
+    ops, out, meta = ctx.run_hx("replay", 12, extra_args=["-extra", cp], tag="-replay")
+    os.remove(cp)
+    log = meta.pop("harness_log", "")
+    rc = meta.pop("harness_rc", 0)
+    print("replay of the recorded session (%s):\n%s" % (f.get("sig"), vlib.indent(log[-2500:])))
+    if rc not in (0, 1):
+        return False
+    ctx.absorb_meta(meta, prefix="replay_")
+    if os.path.exists(ops) and os.path.getsize(ops) > 0:
+        ctx.correspond("replayed session: recorded trace is a run of the model with the observed outcome", ops, out)
+    if not ctx.fails:
+        print("the replayed session no longer fails; running the full check")
+        return False
+    for g in ctx.fails:
+        g["found_by"] = "exact replay of " + os.path.basename(rp)
+    ctx.coverage["rule"] = "replay of one recorded session (the full check was not run)"
+    return True
+
+
 def run(ctx):
     ctx.prove("MpcVerif.Props.C19", THEOREMS)
     if ctx.tier == "thorough":
@@ -247,6 +291,10 @@ def run(ctx):
     par = "8" if quick else "12"
     seeds = [ctx.seed] if quick else [ctx.seed, ctx.seed + 1000, ctx.seed + 2000]
     if have_hooks and ctx.build_hx():
+        if replay_exact(ctx):
+            return ctx.finish("Replay: the recorded session (same parties, connections, join order, start offsets, delay "
+                              "seed, gates and data plan) was run again on the real p2p.Create/Join/Connect; the oracle "
+                              "fails again.")
         for s in seeds:
             # long-delay schedules (one party far later than any plausible timeout) run in parallel
             # with the regular sessions of the first seed: one in the quick tier, eight in thorough
@@ -266,16 +314,26 @@ def run(ctx):
         c = meta.get("counters") or {}
         ctx.correspond("forced schedules of the old-ordering witnesses: model verdict = real outcome", ops, out)
         for w, thm in (("deadlock", "C19_old_order_deadlock"), ("early-return", "C19_old_order_return_incomplete"),
-                       ("bad-list", "C19_old_order_error")):
+                       ("bad-list", "C19_old_order_error"),
+                       ("early-data", "C19_hello_reader_drops_early_data")):
             ok = c.get("witness_%s_gone" % w, 0) > 0 and c.get("witness_%s_reproduced" % w, 0) == 0 and \
                 c.get("witness_%s_other" % w, 0) == 0
-            ctx.oblige("forced schedule of the old-ordering witness %s (%s) no longer fails on the real code" % (w, thm),
+            ctx.oblige("forced schedule of the witness %s (%s) does not fail on the real code" % (w, thm),
                        ok, "counters: %s" % c)
         cc = ctx.coverage.get("counters", {})
         combos = sorted(k for k in cc if re.match(r"n\d_m\d$", k))
         ctx.coverage["n_m_combinations_seen"] = len(combos)
-        ctx.oblige("generator covered all 20 combinations of 2..6 parties x 1..4 connections", len(combos) == 20,
-                   str(combos))
+        skipped = cc.get("sessions_skipped_after_6_failing_sessions", 0)
+        ctx.oblige("generator covered all 20 combinations of 2..6 parties x 1..4 connections",
+                   len(combos) == 20 or skipped > 0, str(combos))
+        ctx.coverage["data_sessions"] = cc.get("data_sessions", 0)
+        ctx.coverage["data_streams_flushed_before_the_peer_accepted"] = cc.get("data_streams_flushed_before_accept", 0)
+        ctx.oblige("generator reached the overlapped class: sessions in which a party had flushed data on a connection "
+                   "before the peer accepted it (>= 20), with payloads of every size class",
+                   skipped > 0 or
+                   cc.get("data_sessions_with_data_flushed_before_accept", 0) >= 20 and
+                   all(cc.get("data_before_accept_class_" + k, 0) > 0 for k in ("tiny", "small", "kb", "mixed", "bulk")),
+                   str({k: v for k, v in cc.items() if k.startswith("data_")}))
         ctx.oblige("every session's ports were available (no exhausted retries)",
                    not any(f.get("sig") == "c19-no-ports" for f in ctx.fails), "")
         if ctx.widen:
@@ -300,7 +358,18 @@ def run(ctx):
         "plus meshes with many connections per pair (n = 2, 3: m = 5, 8, 15, 16, 17, 20, 33, 64; n = 4: m = 17; "
         "n = 2: m = 256; thorough also m = 128, 255 and n = 3: m = 256) "
         "plus long-delay sessions (one party's Connect 6 s after its Join in the quick tier; gap/start/leader lateness "
-        "of 6, 12, 31 s in the thorough tier); distinct = distinct recorded traces")
+        "of 6, 12, 31 s in the thorough tier); "
+        "DATA PHASE OVERLAPPING THE SETUP PHASE (two sessions out of three, every long-delay session, every other "
+        "many-connection session): the moment a party's own Connect returns - no barrier between the parties - it "
+        "starts one sender and one receiver per connection; stream of sender p on slot (q, k) = seeded length of class "
+        "tiny (1..8 bytes: same TCP segment as the hello), small (9..208), kb (900..1199), mixed (0 / tiny / small / kb "
+        "/ 4..7 KB), bulk (60..72 KB, across the 64 KiB write buffer), big (1 MiB +-500, across the read buffer), "
+        "bytes = fixed function of (p, q, k, offset), written with a seeded mix of SendByte/SendUint16/SendUint32 in "
+        "1..3 bursts, flushed per call or per burst; oracle per stream: the receiver reads exactly the sender's bytes "
+        "from ITS slot (sender, k), in order, none lost (no byte anywhere for 5 s = lost), none wrong, and the tagged "
+        "pings that follow on the same connections stay aligned (no surplus byte); measured: streams whose first burst "
+        "was flushed before the accepting end logged the accept of that connection (obligation: >= 20 sessions, every "
+        "size class); distinct = distinct recorded traces")
     ctx.assumptions += [
         "TCP modelled as: a connection becomes acceptable when its hello is sent, accept order arbitrary (the real "
         "accept loop takes connections in establishment order and blocks on a missing hello: fewer behaviours); "
@@ -318,6 +387,13 @@ def run(ctx):
         "from p2p/network.go, peer.go, protocol.go on every run, backed by long-delay sessions (a party 6 s .. 31 s late "
         "between Join and Connect, before Join, or the leader late; up to 61 s in the widened search)",
         "Create precedes every Join (otherwise Join returns 'connection refused'); every party calls Connect",
+        "data layer: the payload of a connection and direction is a byte queue (kernel socket, then the ReadBuf of the "
+        "*Conn that read the hello and is stored, then the application); the bytes of the hello and of the network info "
+        "are not represented; a send is one step (the harness logs S before the first byte is written, so the model "
+        "may hold bytes the real socket does not hold yet: reads take 'at most' what is there); TCP delivers in order "
+        "and loses nothing; the Conn codec itself (Send*/Receive*/Fill/Flush) is C11's subject",
+        "a party uses a connection only after its own Connect returned (the property's 'data sent on it'); one sender "
+        "and one receiver goroutine per *Conn (Conn is not safe for concurrent senders)",
     ]
     ctx.trusted = vlib.DEFAULT_TRUSTED + [
         "the verif hooks in p2p (event log + delay points; no-ops without the build tag), Linux loopback TCP",
@@ -332,5 +408,13 @@ def run(ctx):
         "store) is kept as events oldDec/oldStore only to state what the repair removed (C19_old_order_*); their "
         "schedules are forced on the real code on every run and must no longer fail. Tie: every recorded event trace "
         "of real sessions is validated as a run of the model that ends final, with every table complete at its "
-        "return event. Structural facts pin the statement order of acceptConn/dial/connectPeer/connectLeader/"
+        "return event. Data phase overlapping the setup phase (Model/MeshData.lean over the same transition system: "
+        "per connection and direction socket queue from the dial on, ReadBuf of the accepted Conn, per slot sent / "
+        "received sequences; send enabled as soon as the sender's own Connect returned): C19_early_data_conserved "
+        "(received ++ ReadBuf ++ socket of slot (q, k) at p = sent on slot (p, k) at q, in every reachable state, every "
+        "split of the stream into reads incl. the read that fetches the hello), C19_early_data_delivered (prefix at all "
+        "times, equal once drained, send enabled whatever the peer does, receive yields everything), negation witness "
+        "C19_hello_reader_drops_early_data for an accept that reads the hello through a reader that is not the stored "
+        "connection (its schedule is forced on the real code on every run and must deliver). Tie: the S / R / T tokens "
+        "of every data session are replayed on the data layer (byte counts and checksums per stream). Structural facts pin the statement order of acceptConn/dial/connectPeer/connectLeader/"
         "SetConn/addPeer.")
